@@ -13,9 +13,11 @@ import (
 	"encoding/json"
 	"fmt"
 	"math/rand"
+	"strings"
 	"time"
 
 	"verif/harness/lib/ev"
+	"verif/harness/lib/kvx"
 	"verif/harness/lib/sched"
 )
 
@@ -51,7 +53,7 @@ func twBase(g *gen) ([]opSpec, *model) {
 	}
 	for i, n := 0, g.rng.Intn(4); i < n; i++ {
 		op := g.op(md)
-		if op.Kind != kGetModifySet {
+		if !isGetEditSet(op) {
 			add(op)
 		}
 	}
@@ -84,7 +86,7 @@ func twPair(g *gen, md *model) (a, b opSpec, kind string, ok bool) {
 			cands = append(cands, opSpec{Kind: kSetRuleGroup, Group: &gs})
 		}
 		for i := 0; i < 6; i++ {
-			if op := g.op(md); op.Kind != kGetModifySet {
+			if op := g.op(md); !isGetEditSet(op) {
 				cands = append(cands, op)
 			}
 		}
@@ -135,7 +137,7 @@ func twPair(g *gen, md *model) (a, b opSpec, kind string, ok bool) {
 	}
 	for try := 0; try < 30; try++ {
 		a, b = g.op(md), g.op(md)
-		if a.Kind == kGetModifySet || b.Kind == kGetModifySet {
+		if isGetEditSet(a) || isGetEditSet(b) {
 			continue
 		}
 		_, wfa, amba := md.apply(a)
@@ -149,7 +151,7 @@ func twPair(g *gen, md *model) (a, b opSpec, kind string, ok bool) {
 
 // twJudge looks for a serial order that explains the outcome. acc[i]: update i was accepted.
 // Returns "" when explained (or not judged: skipped=true).
-func twJudge(md0 *model, ops [2]opSpec, acc [2]bool, served *snap) (key, what string, skipped bool) {
+func twJudge(md0 *model, ops [2]opSpec, acc [2]bool, served *snap) (key, what string, skipped bool, final *model) {
 	problem, anyChain := "", false
 	var firstDiff *diff
 	for _, ord := range [][2]int{{0, 1}, {1, 0}} {
@@ -160,7 +162,7 @@ func twJudge(md0 *model, ops [2]opSpec, acc [2]bool, served *snap) (key, what st
 			}
 			n, wf, amb := s.apply(ops[i])
 			if amb {
-				return "", "", true
+				return "", "", true, nil
 			}
 			if !wf {
 				chain, problem = false, "malformed"
@@ -168,7 +170,7 @@ func twJudge(md0 *model, ops [2]opSpec, acc [2]bool, served *snap) (key, what st
 			}
 			p, at, va := n.validity()
 			if va {
-				return "", "", true
+				return "", "", true, nil
 			}
 			if p != "" {
 				if problem == "" {
@@ -185,7 +187,7 @@ func twJudge(md0 *model, ops [2]opSpec, acc [2]bool, served *snap) (key, what st
 		anyChain = true
 		d, _ := diffModel(s, served)
 		if d == nil {
-			return "", "", false
+			return "", "", false, s
 		}
 		if firstDiff == nil {
 			firstDiff = d
@@ -200,129 +202,287 @@ func twJudge(md0 *model, ops [2]opSpec, acc [2]bool, served *snap) (key, what st
 			}
 		}
 		return "concurrent-updates-not-serializable:accepted-invalid:" + cls,
-			"two concurrent updates were both accepted although in neither serial order both are valid: " + problem, false
+			"two concurrent updates were both accepted although in neither serial order both are valid: " + problem, false, nil
 	}
 	return "concurrent-updates-not-serializable:served:" + firstDiff.Observable,
-		fmt.Sprintf("after two concurrent updates no serial order of the accepted ones explains what is served: %s(%s) serves %s, the model (order A;B or B;A) gives %s", firstDiff.Observable, firstDiff.Item, firstDiff.A, firstDiff.B), false
+		fmt.Sprintf("after two concurrent updates no serial order of the accepted ones explains what is served: %s(%s) serves %s, the model (order A;B or B;A) gives %s", firstDiff.Observable, firstDiff.Item, firstDiff.A, firstDiff.B), false, nil
+}
+
+// twAbort: the phase cannot go on (reported as inconclusive).
+var twAbort bool
+
+// twCase is one pair of updates on one base state.
+type twCase struct {
+	base []opSpec
+	md0  *model
+	ops  [2]opSpec
+	kind string
+}
+
+// twExec runs the two updates of c concurrently (start order start, release order by ch) on a fresh
+// world in the base state and judges the outcome. failK > 0: the failK-th storage write of the
+// execution (in release order, whichever update issues it) fails with mode. Returns the scheduler
+// (nil when the execution could not be run) and the number of gated writes.
+func twExec(r *ev.Run, c *twCase, start [2]int, ch func(int, []sched.Info) int, failK int64, mode kvx.FaultMode, sample bool) *sched.Sched {
+	w, err := newWorld()
+	if err != nil {
+		r.Inconclusive("Initialize on empty storage failed: %v", err)
+		twAbort = true
+		return nil
+	}
+	for _, op := range c.base {
+		safeApply(w.m, op)
+	}
+	if d, _ := diffModel(c.md0, observe(w.m)); d != nil {
+		r.Count("two_writer_base_mismatch", 1) // judged by the sequential phases
+		return nil
+	}
+	sc := sched.New()
+	sc.Settle = 12 * time.Millisecond
+	sc.Stagger = true
+	overlapped := false
+	sc.OnQuiescent = func(step int, parked []sched.Info) {
+		if len(parked) > 1 {
+			overlapped = true
+		}
+	}
+	w.kv.Gate, w.kv.Done = sc.Gate, sc.Done
+	if failK > 0 {
+		w.kv.FailWrite(failK, mode)
+	}
+	var errs [2]error
+	var pns [2]string
+	var ws []func()
+	for _, i := range start {
+		i := i
+		ws = append(ws, func() { errs[i], _, pns[i] = safeApply(w.m, c.ops[i]) })
+	}
+	sc.Run(ws, ch)
+	w.kv.Gate, w.kv.Done = nil, nil
+	injected := w.kv.Injected()
+	w.kv.ResetFaults()
+	if sc.Err != nil {
+		r.Inconclusive("two-writer scheduler: %v", sc.Err)
+		twAbort = true
+		return nil
+	}
+	r.Eval(1)
+	r.Count("two_writer_executions", 1)
+	r.Count("two_writer_gated_writes", int64(len(sc.Trace)))
+	if overlapped {
+		r.Count("two_writer_executions_with_both_updates_inside_their_writes", 1)
+	}
+	pj, _ := json.Marshal(c.ops)
+	r.Distinct(fmt.Sprintf("2w|%s|%s|%v|%s|%d|%d", c.md0.stateKey(), pj, start, sc.TraceKey(), failK, mode))
+	wit := func(extra map[string]interface{}) map[string]interface{} {
+		m := map[string]interface{}{"phase": "two-writers", "pair_kind": c.kind, "base_history": c.base,
+			"update_A": c.ops[0], "update_B": c.ops[1], "start_order": start, "released_writes": sc.Trace,
+			"outcome_A": errText(errs[0]), "outcome_B": errText(errs[1]),
+			"note": "worker numbers in released_writes are positions in start_order; empty outcome = accepted"}
+		if failK > 0 {
+			m["failed_write"], m["fault_mode"] = failK, modeName(mode)
+		}
+		for k, v := range extra {
+			m[k] = v
+		}
+		return m
+	}
+	if sample {
+		defer func() { r.Sample(wit(nil)) }()
+	}
+	if pns[0] != "" || pns[1] != "" {
+		r.Violation("panic:two-writers", "panic inside one of two concurrent updates: "+pns[0]+pns[1], wit(nil))
+		return sc
+	}
+	acc := [2]bool{errs[0] == nil, errs[1] == nil}
+	failed := -1
+	if injected > 0 {
+		r.Count("two_writer_faults_injected_"+modeName(mode), 1)
+		for i := range errs {
+			if errs[i] != nil && strings.Contains(errs[i].Error(), "injected storage failure") {
+				failed = i
+			}
+		}
+		if failed < 0 {
+			r.Violation("storage-failure-not-reported:two-writers", fmt.Sprintf("storage write %d of two concurrent updates failed (%s) but neither update reported it", failK, modeName(mode)), wit(nil))
+			return sc
+		}
+	}
+	served, pn := safeObserve(w.m)
+	if pn != "" {
+		r.Violation("panic:observe:two-writers", "panic in a read API after two concurrent updates: "+pn, wit(nil))
+		return sc
+	}
+	key, what, skipped, final := twJudge(c.md0, c.ops, acc, served)
+	if skipped {
+		r.Count("two_writer_skipped_ambiguous", 1)
+		return sc
+	}
+	if key != "" {
+		if failed >= 0 {
+			what = fmt.Sprintf("(write %d failed, %s, inside update %s) ", failK, modeName(mode), []string{"A", "B"}[failed]) + what
+		}
+		r.Count("finding[two-writers]:"+key, 1)
+		r.Violation(key, what, wit(map[string]interface{}{"served_rules": served.all, "storage": w.kv.Dump()}))
+		return sc
+	}
+	r.Count("two_writer_serializable", 1)
+	if acc[0] && acc[1] {
+		r.Count("two_writer_both_accepted", 1)
+	} else if acc[0] != acc[1] {
+		r.Count("two_writer_one_rejected", 1)
+	}
+	if failed >= 0 {
+		// the failed update is retried (alone, no fault): it is the last update of the serial order
+		rerr, _, pn := safeApply(w.m, c.ops[failed])
+		if pn != "" {
+			r.Violation("panic:two-writers:retry", "panic inside the retried update: "+pn, wit(nil))
+			return sc
+		}
+		served, _ = safeObserve(w.m)
+		if rerr != nil {
+			if d, _ := diffModel(final, served); d != nil {
+				r.Violation("concurrent-updates:retry-rejected-but-changed:"+d.Observable, fmt.Sprintf("the update whose write failed inside a race was retried and rejected (%v), yet %s(%s) serves %s, model %s", rerr, d.Observable, d.Item, d.A, d.B), wit(nil))
+			}
+			r.Count("two_writer_retry_rejected", 1)
+			return sc // storage may hold a part of the failed attempt: reload is not judged (only retry to success is promised)
+		}
+		n, wf, amb := final.apply(c.ops[failed])
+		if amb || !wf {
+			r.Count("two_writer_skipped_ambiguous", 1)
+			return sc
+		}
+		if p, at, va := n.validity(); va {
+			r.Count("two_writer_skipped_ambiguous", 1)
+			return sc
+		} else if p != "" {
+			r.Violation("concurrent-updates:retry-accepted-invalid:"+p, fmt.Sprintf("the update whose write failed inside a race was retried and accepted although the segment starting at 0x%x then has %s", at, p), wit(nil))
+			return sc
+		}
+		if d, _ := diffModel(n, served); d != nil {
+			r.Violation("concurrent-updates:retry-does-not-converge:served:"+d.Observable, fmt.Sprintf("write %d (%s) failed inside a race; after the retry %s(%s) serves %s, model %s", failK, modeName(mode), d.Observable, d.Item, d.A, d.B), wit(nil))
+			return sc
+		}
+		r.Count("two_writer_retry_converged", 1)
+		acc[failed] = true
+	}
+	if acc[0] || acc[1] {
+		rm, _, _, rerr := w.reload()
+		if rerr != nil {
+			r.Violation("concurrent-updates:reload-fails", fmt.Sprintf("after two concurrent updates a fresh RuleManager cannot initialise from the storage: %v", rerr), wit(map[string]interface{}{"storage": w.kv.Dump()}))
+		} else if d := diffSnaps(served, observe(rm)); d != nil {
+			r.Violation("concurrent-updates:reload-differs-from-served", fmt.Sprintf("after two concurrent updates %s(%s) is served as %s but a fresh RuleManager on the same storage gives %s", d.Observable, d.Item, d.A, d.B), wit(map[string]interface{}{"diff": d, "storage": w.kv.Dump()}))
+		} else {
+			r.Count("two_writer_reload_equal", 1)
+		}
+	}
+	return sc
+}
+
+// twExplore enumerates release orders for both start orders.
+func twExplore(r *ev.Run, c *twCase, maxRuns int, sampleFirst bool) bool {
+	for _, start := range [][2]int{{0, 1}, {1, 0}} {
+		ex := &sched.Explorer{}
+		for ex.Runs < maxRuns {
+			ch := ex.Next()
+			if ch == nil {
+				break
+			}
+			sc := twExec(r, c, start, ch, 0, kvx.NoFault, sampleFirst && start[0] == 0 && ex.Runs == 0)
+			if sc == nil {
+				return !twAbort
+			}
+			ex.Advance(sc)
+		}
+		if ex.Diverged > 0 {
+			r.Count("two_writer_dfs_diverged_prefixes", int64(ex.Diverged))
+		}
+	}
+	return true
+}
+
+// twFaults: every single storage write of the execution (first release order, start order A then
+// B) fails once; modes alternate with the write number unless both is set.
+func twFaults(r *ev.Run, c *twCase, maxK int, both bool) {
+	first := func(int, []sched.Info) int { return 0 }
+	sc := twExec(r, c, [2]int{0, 1}, first, 0, kvx.NoFault, false)
+	if sc == nil {
+		return
+	}
+	n := len(sc.Trace)
+	if n > maxK {
+		n = maxK
+	}
+	for k := 1; k <= n; k++ {
+		modes := []kvx.FaultMode{[]kvx.FaultMode{kvx.FailBefore, kvx.LostAck}[k%2]}
+		if both {
+			modes = []kvx.FaultMode{kvx.FailBefore, kvx.LostAck}
+		}
+		for _, m := range modes {
+			start := [2]int{0, 1}
+			if k%2 == 0 {
+				start = [2]int{1, 0}
+			}
+			if twExec(r, c, start, first, int64(k), m, false) == nil {
+				return
+			}
+		}
+	}
 }
 
 func runTwoWriters(r *ev.Run, rng *rand.Rand) {
-	pairs := r.Pick(70, 250)
-	maxRuns := r.Pick(6, 40) // schedules per pair and start order
 	g := &gen{rng: rng}
-	for c := 0; c < pairs; c++ {
+	maxRuns := r.Pick(6, 40) // schedules per pair and start order
+	// 1. biased random pairs
+	for c, pairs := 0, r.Pick(36, 200); c < pairs; c++ {
 		base, md0 := twBase(g)
 		a, b, kind, ok := twPair(g, md0)
 		if !ok {
 			r.Count("two_writer_no_pair", 1)
 			continue
 		}
-		ops := [2]opSpec{a, b}
 		r.Count("two_writer_pairs_"+kind, 1)
-		for _, start := range [][2]int{{0, 1}, {1, 0}} {
-			ex := &sched.Explorer{}
-			for ex.Runs < maxRuns {
-				ch := ex.Next()
-				if ch == nil {
-					break
-				}
-				w, err := newWorld()
-				if err != nil {
-					r.Inconclusive("Initialize on empty storage failed: %v", err)
-					return
-				}
-				for _, op := range base {
-					safeApply(w.m, op)
-				}
-				if d, _ := diffModel(md0, observe(w.m)); d != nil {
-					r.Count("two_writer_base_mismatch", 1) // judged by the sequential phases
-					break
-				}
-				sc := sched.New()
-				sc.Settle = 12 * time.Millisecond
-				sc.Stagger = true
-				overlapped := false
-				sc.OnQuiescent = func(step int, parked []sched.Info) {
-					if len(parked) > 1 {
-						overlapped = true
+		tc := &twCase{base, md0, [2]opSpec{a, b}, kind}
+		if !twExplore(r, tc, maxRuns, c < 1) {
+			return
+		}
+		if r.Thorough() && c%4 == 0 {
+			twFaults(r, tc, 6, true)
+		}
+	}
+	// 2. the complete matrix of update entry points: every unordered pair of kinds (incl. twice the
+	// same kind) at least once per run, both start orders; storage faults at each write of the
+	// pair inside the race for the pairs that have several writes
+	kinds := []string{kSetRule, kDeleteRule, kSetRules, kBatch, kSetRuleGroup, kDeleteRuleGroup, kSetGroupBundle, kSetAllGroupBundles, kDeleteGroupBundle}
+	reps := r.Pick(1, 4)
+	for rep := 0; rep < reps; rep++ {
+		for i := range kinds {
+			for j := i; j < len(kinds); j++ {
+				var tc *twCase
+				for try := 0; try < 40 && tc == nil; try++ {
+					base, md0 := twBase(g)
+					a, b := g.opOfKind(md0, kinds[i]), g.opOfKind(md0, kinds[j])
+					_, oka := accepts(md0, a)
+					_, okb := accepts(md0, b)
+					// at least one of the two must be acceptable alone, preferably both
+					if (oka && okb) || (try > 25 && (oka || okb)) {
+						tc = &twCase{base, md0, [2]opSpec{a, b}, "matrix"}
 					}
 				}
-				w.kv.Gate, w.kv.Done = sc.Gate, sc.Done
-				var errs [2]error
-				var pns [2]string
-				var ws []func()
-				for _, i := range start {
-					i := i
-					ws = append(ws, func() { errs[i], _, pns[i] = safeApply(w.m, ops[i]) })
-				}
-				sc.Run(ws, ch)
-				w.kv.Gate, w.kv.Done = nil, nil
-				ex.Advance(sc)
-				if sc.Err != nil {
-					r.Inconclusive("two-writer scheduler: %v", sc.Err)
-					return
-				}
-				r.Eval(1)
-				r.Count("two_writer_executions", 1)
-				r.Count("two_writer_gated_writes", int64(len(sc.Trace)))
-				if overlapped {
-					r.Count("two_writer_executions_with_both_updates_inside_their_writes", 1)
-				}
-				pj, _ := json.Marshal(ops)
-				r.Distinct(fmt.Sprintf("2w|%s|%s|%v|%s", md0.stateKey(), pj, start, sc.TraceKey()))
-				wit := func(extra map[string]interface{}) map[string]interface{} {
-					m := map[string]interface{}{"phase": "two-writers", "pair_kind": kind, "base_history": base,
-						"update_A": ops[0], "update_B": ops[1], "start_order": start, "released_writes": sc.Trace,
-						"outcome_A": errText(errs[0]), "outcome_B": errText(errs[1]),
-						"note": "worker numbers in released_writes are positions in start_order; empty outcome = accepted"}
-					for k, v := range extra {
-						m[k] = v
-					}
-					return m
-				}
-				if pns[0] != "" || pns[1] != "" {
-					r.Violation("panic:two-writers", "panic inside one of two concurrent updates: "+pns[0]+pns[1], wit(nil))
-					break
-				}
-				acc := [2]bool{errs[0] == nil, errs[1] == nil}
-				served, pn := safeObserve(w.m)
-				if pn != "" {
-					r.Violation("panic:observe:two-writers", "panic in a read API after two concurrent updates: "+pn, wit(nil))
-					break
-				}
-				key, what, skipped := twJudge(md0, ops, acc, served)
-				if skipped {
-					r.Count("two_writer_skipped_ambiguous", 1)
+				if tc == nil {
+					r.Count("two_writer_matrix_no_pair", 1)
 					continue
 				}
-				if key != "" {
-					r.Count("finding[two-writers]:"+key, 1)
-					r.Violation(key, what, wit(map[string]interface{}{"served_rules": served.all, "storage": w.kv.Dump()}))
-					continue
+				r.Count("two_writer_matrix_pairs", 1)
+				r.Distinct("2w-matrix|" + kinds[i] + "|" + kinds[j])
+				if !twExplore(r, tc, r.Pick(2, 12), false) {
+					return
 				}
-				r.Count("two_writer_serializable", 1)
-				if acc[0] && acc[1] {
-					r.Count("two_writer_both_accepted", 1)
-				} else if acc[0] != acc[1] {
-					r.Count("two_writer_one_rejected", 1)
+				if (i+j+rep)%r.Pick(3, 1) == 0 {
+					twFaults(r, tc, r.Pick(4, 10), r.Thorough())
 				}
-				if acc[0] || acc[1] {
-					rm, _, _, rerr := w.reload()
-					if rerr != nil {
-						r.Violation("concurrent-updates:reload-fails", fmt.Sprintf("after two concurrent updates a fresh RuleManager cannot initialise from the storage: %v", rerr), wit(map[string]interface{}{"storage": w.kv.Dump()}))
-					} else if d := diffSnaps(served, observe(rm)); d != nil {
-						r.Violation("concurrent-updates:reload-differs-from-served", fmt.Sprintf("after two concurrent updates %s(%s) is served as %s but a fresh RuleManager on the same storage gives %s", d.Observable, d.Item, d.A, d.B), wit(map[string]interface{}{"diff": d, "storage": w.kv.Dump()}))
-					} else {
-						r.Count("two_writer_reload_equal", 1)
-					}
-				}
-				if c < 2 && start[0] == 0 && ex.Runs == 1 {
-					r.Sample(wit(nil))
-				}
-			}
-			if ex.Diverged > 0 {
-				r.Count("two_writer_dfs_diverged_prefixes", int64(ex.Diverged))
 			}
 		}
 	}
+	r.Set("two_writer_kind_matrix", fmt.Sprintf("%d kinds, all %d unordered pairs x both start orders", len(kinds), len(kinds)*(len(kinds)+1)/2))
 }
